@@ -730,14 +730,26 @@ func c01HugeGapCases() []C01Case {
 	return out
 }
 
-// c01CarryCases: a mantissa of 1.33 million digits (70 000 words), all nines or 1 0...0 1, meeting an addend at its
+// c01CarryCases: a mantissa of 1.33 and of 2.6 million digits (70 000 / 137 000 words; 5.3 million in the thorough tier), all nines or 1 0...0 1, meeting an addend at its
 // very bottom, so that a carry or borrow runs through the whole mantissa while the receiver keeps 19 or 34 digits.
 // The expected results are known by construction (no big-integer arithmetic on a million digits per case).
 func c01CarryCases() *h.Fail {
-	const K = 1330000
-	nines := h.Spec{F: "f", D: strings.Repeat("9", K), E: 0, P: K}                     // 1 - 10^-K
-	onePlus := h.Spec{F: "f", D: "1" + strings.Repeat("0", K-1) + "1", E: 1, P: K + 1} // 1 + 10^-K
-	unit := func(d string) h.Spec { return h.Spec{F: "f", D: d, E: -K + 1, P: 3} }     // d x 10^-K
+	ks := []int{1330000, 2600000}
+	if h.Thorough() {
+		ks = append(ks, 5300000)
+	}
+	for _, K := range ks {
+		if f := c01CarryCasesK(K); f != nil {
+			return f
+		}
+	}
+	return nil
+}
+
+func c01CarryCasesK(K int) *h.Fail {
+	nines := h.Spec{F: "f", D: strings.Repeat("9", K), E: 0, P: uint(K)}                     // 1 - 10^-K
+	onePlus := h.Spec{F: "f", D: "1" + strings.Repeat("0", K-1) + "1", E: 1, P: uint(K + 1)} // 1 + 10^-K
+	unit := func(d string) h.Spec { return h.Spec{F: "f", D: d, E: int64(-K + 1), P: 3} }    // d x 10^-K
 	type tc struct {
 		op      string
 		x, y    h.Spec
